@@ -238,6 +238,26 @@ fn history(cfg: &Cfg, rep: &mut Report, h: u64, steps: usize) {
                     revoked.remove(&key);
                 }
             }
+        } else if k < 56 {
+            // an identity drops one of its claims (and may add it again later)
+            let cand: Vec<(usize, usize, u32)> = held.keys().cloned().collect();
+            if cand.is_empty() {
+                continue;
+            }
+            let (id2, i2, t2) = *rng.pick(&cand);
+            let mut d: Vec<u8> = vec![];
+            for b in issuers[i2].clone().to_xdr(e).iter() {
+                d.push(b);
+            }
+            d.extend_from_slice(&t2.to_be_bytes());
+            let cid: [u8; 32] = sha3::Keccak256::digest(&d).into();
+            let r: Result<(), Fail> = invoke(e, &identities[id2], "remove_claim", args!(e, BytesN::from_array(e, &cid)));
+            rep.op(format!("#{step} ID{id2}.remove_claim(issuer I{i2}, topic {t2}) -> {}", tag(&r)));
+            rep.count(&format!("remove_claim:{}", tag(&r)));
+            rep.check("ref", r.is_ok(), "C15/ref/remove_claim/outcome", || format!("removing a held claim (ID{id2}, I{i2}, topic {t2}) was refused: {r:?}"));
+            if r.is_ok() {
+                held.remove(&(id2, i2, t2));
+            }
         } else if k < 58 {
             let adv = *rng.pick(&[1u64, 50, 99, 100, 101, 1_000_000]);
             ts += adv;
